@@ -316,7 +316,7 @@ func init() {
 	Register(Spec[c14RawIn]{
 		ID: "C14", Suite: "rawpeer", CoqImports: []string{"Check.C14"},
 		CoqType: "bool * list (string * string) * list (option (list (string * option string)))", CoqRun: "Check.C14.run_chain_conn",
-		Quick: 8, Thorough: 200, Parallel: 6, Timeout: 45 * time.Second,
+		Quick: 8, Thorough: 100, Parallel: 6, Timeout: 45 * time.Second,
 		Corpus: c14RawCorpus, Gen: c14RawGen, Run: c14RawRun, Coq: c14RawCoq,
 	})
 }
